@@ -248,6 +248,39 @@ theorem firstPass_covered (q : List Hash → Option (Nat × Shard.Seg)) (K : Has
       rw [this]
       exact hrec
 
+/-- a pass over slots that are already covered changes nothing (the second pass of the first loop, run after a global-dedup
+    shard arrived, re-asks only about slots that are still empty — and none of the consulted ones is) -/
+theorem firstPass_id_of_covered (q : List Hash → Option (Nat × Shard.Seg)) (minN : Nat) (fuel : Nat)
+    (chunks : List DChunk) (slots : Answers) (hc : coveredFrom minN fuel chunks slots = true) :
+    firstPass q fuel chunks slots = slots := by
+  induction fuel generalizing chunks slots with
+  | zero => simp [firstPass]
+  | succ fuel ih =>
+    cases chunks with
+    | nil => simp [firstPass]
+    | cons c rest =>
+      simp only [coveredFrom] at hc
+      cases hst : (slots.head?).join with
+      | none => simp [hst] at hc
+      | some a =>
+        obtain ⟨n, s⟩ := a
+        simp only [hst, Bool.and_eq_true, decide_eq_true_eq] at hc
+        obtain ⟨⟨h1, _⟩, hrest⟩ := hc
+        have hn0 : n ≠ 0 := by omega
+        simp only [firstPass, hst, hn0, if_false]
+        rw [ih _ _ hrest, List.take_append_drop]
+
+/-- two passes: covered after the first ⇒ covered (and unchanged) after the second, whatever the second lookup says -/
+theorem firstPass_two_covered (q₁ q₂ : List Hash → Option (Nat × Shard.Seg)) (K : Hash → Prop) (minN : Nat)
+    (hq : ∀ (h : Hash) (rest : List Hash), K h →
+      ∃ n s, q₁ (h :: rest) = some (n, s) ∧ 1 ≤ n ∧ minN ≤ n ∧ n ≤ rest.length + 1)
+    (fuel : Nat) (chunks : List DChunk) (hk : ∀ c ∈ chunks, K c.hash) :
+    coveredFrom minN fuel chunks
+      (firstPass q₂ fuel chunks (firstPass q₁ fuel chunks (List.replicate chunks.length none))) = true := by
+  have h1 := firstPass_covered q₁ K minN hq fuel chunks hk
+  rw [firstPass_id_of_covered q₂ minN fuel chunks _ h1]
+  exact h1
+
 /-- a history whose calls get their answers from one pass of the first loop over fresh slots -/
 def LookupHistory (q : List Hash → Option (Nat × Shard.Seg)) (K : Hash → Prop) (evs : List Ev) : Prop :=
   ∀ e ∈ evs, match e with
@@ -277,6 +310,39 @@ theorem C11_repeat_free_lookup (P : HashPrims) (L : Limits) (allow : Defrag → 
     unfold CoveredCall
     rw [h.1]
     exact firstPass_covered q K minN hq _ _ h.2
+  | done _ _ _ => trivial
+
+/-- a history whose calls get their answers from one pass, or from two passes (the second with another lookup function: new
+    shards arrived through global dedup in between), of the first loop over fresh slots -/
+def LookupHistory2 (q₁ q₂ : List Hash → Option (Nat × Shard.Seg)) (K : Hash → Prop) (evs : List Ev) : Prop :=
+  ∀ e ∈ evs, match e with
+    | .call _ k =>
+      (k.answers = firstPass q₁ (k.chunks.length + 1) k.chunks (List.replicate k.chunks.length none) ∨
+       k.answers = firstPass q₂ (k.chunks.length + 1) k.chunks
+          (firstPass q₁ (k.chunks.length + 1) k.chunks (List.replicate k.chunks.length none))) ∧
+        ∀ c ∈ k.chunks, K c.hash
+    | .done _ _ _ => True
+
+/-- `C11_repeat_free_lookup` for calls with one or two passes of the first loop -/
+theorem C11_repeat_free_lookup_two_pass (P : HashPrims) (L : Limits) (allow : Defrag → Nat → Decision) (minN : Nat)
+    (hallow : ∀ (d : Defrag) (n : Nat), minN ≤ n → (allow d n).allow = true)
+    (q₁ q₂ : List Hash → Option (Nat × Shard.Seg)) (K : Hash → Prop)
+    (hq : ∀ (h : Hash) (rest : List Hash), K h →
+      ∃ n s, q₁ (h :: rest) = some (n, s) ∧ 1 ≤ n ∧ minN ≤ n ∧ n ≤ rest.length + 1)
+    (evs : List Ev) (he : LookupHistory2 q₁ q₂ K evs) :
+    (finished P L allow World.init evs).sess.puts = [] ∧
+    (finished P L allow World.init evs).sess.metrics.newBytes = 0 ∧
+    (finished P L allow World.init evs).sess.metrics.newChunks = 0 := by
+  apply C11_repeat_free P L allow minN hallow evs
+  intro e hmem
+  have h := he e hmem
+  cases e with
+  | call id k =>
+    simp only at h ⊢
+    unfold CoveredCall
+    rcases h.1 with h1 | h2
+    · rw [h1]; exact firstPass_covered q₁ K minN hq _ _ h.2
+    · rw [h2]; exact firstPass_two_covered q₁ q₂ K minN hq _ _ h.2
   | done _ _ _ => trivial
 
 /-! ### non-vacuity: a covered history exists, and the session it describes is not empty -/
